@@ -5,7 +5,10 @@ patch=/verif/seeded/$id/patch.diff
 [ -f "$patch" ] || { echo "no $patch"; exit 2; }
 if ! git -C /repo diff --quiet; then echo "/repo is dirty"; exit 2; fi
 git -C /repo apply "$patch" || exit 2
+# the evidence file belongs to runs on the unchanged tree: keep it across the mutant run
+cp /verif/evidence/$prop.json /verif/.work/evidence-$prop.keep 2>/dev/null
 cd /verif && ./check $prop "$@" > /verif/.work/mutant-$id-$prop.out 2>&1; rc=$?
 git -C /repo checkout -- . 
+[ -f /verif/.work/evidence-$prop.keep ] && mv /verif/.work/evidence-$prop.keep /verif/evidence/$prop.json
 echo "== $id vs $prop: rc=$rc"; grep -m2 -A2 "^VIOLATION\|^INFRA" /verif/.work/mutant-$id-$prop.out | head -8
 exit $rc
